@@ -100,6 +100,16 @@ static int m_read(struct mspack_file *f, void *buf, int n) {
   if (faulty(K_READ, NULL) || !h || n < 0 || !buf) { if (sm_trace) printf("cb read #%d %d fail\n", h ? h->id : -1, n); return -1; }
   bufcheck(buf, (size_t) n, "read");
   memset(buf, sm_fill ^ 0x5a, (size_t) n);          /* touches the whole destination (ASan checks capacity) */
+  if (h->f->vlen) {          /* sparse file */
+    size_t i, a, b;
+    k = h->pos < h->f->vlen ? h->f->vlen - h->pos : 0; if ((size_t) n < k) k = (size_t) n;
+    memset(buf, 0, k);
+    a = h->pos > h->f->voff ? h->pos : h->f->voff; b = h->pos + k < h->f->voff + h->f->len ? h->pos + k : h->f->voff + h->f->len;
+    for (i = a; i < b; i++) ((unsigned char *) buf)[i - h->pos] = h->f->data[i - h->f->voff];
+    h->pos += k;
+    if (sm_trace) printf("cb read #%d %d -> %zu\n", h->id, n, k);
+    return (int) k;
+  }
   k = h->pos < h->f->len ? h->f->len - h->pos : 0; if ((size_t) n < k) k = (size_t) n;
   memcpy(buf, h->f->data + h->pos, k); h->pos += k;
   if (sm_trace) printf("cb read #%d %d -> %zu\n", h->id, n, k);
@@ -133,7 +143,7 @@ static int m_seek(struct mspack_file *f, off_t off, int whence) {
   if (whence != MSPACK_SYS_SEEK_START && whence != MSPACK_SYS_SEEK_CUR && whence != MSPACK_SYS_SEEK_END)
     sm_violation("seek with mode %d", whence);
   if (faulty(K_SEEK, NULL) || !h) { if (sm_trace) printf("cb seek #%d %lu %d fail\n", h ? h->id : -1, zenc(off), whence); return -1; }
-  base = whence == MSPACK_SYS_SEEK_START ? 0 : (whence == MSPACK_SYS_SEEK_CUR ? (long) h->pos : (long) h->f->len);
+  base = whence == MSPACK_SYS_SEEK_START ? 0 : (whence == MSPACK_SYS_SEEK_CUR ? (long) h->pos : (long) (h->f->vlen ? h->f->vlen : h->f->len));
   np = base + (long) off;
   if (np < 0) { if (sm_trace) printf("cb seek #%d %lu %d neg\n", h->id, zenc(off), whence); return -1; }
   h->pos = (size_t) np;
